@@ -134,7 +134,8 @@ def gen_faults(r, prop, nbrokers, topics, producers):
              "leader_move", "leader_unavailable", "stale_metadata", "delay", "broker_down"]
     if prop == "C02":
         kinds.append("wall_clock_jump")
-    # (broker_failover is not enabled here: see DESIGN.md, Appendix I round 4, open observation)
+    if nbrokers >= 2:
+        kinds.append("broker_failover")
     enabled = r.sample(kinds, r.randint(1, len(kinds)))
     faults = []
     tps = [(t, p) for t, d in sorted(topics.items()) for p in range(d["partitions"])]
